@@ -101,7 +101,10 @@ def bfsCmd (st : BState) : List (List Char) → Option (BState × List (List Cha
         -- "mut": mutating events only; "all": every event
         let evs := st.w.trace.reverse
         let evs := if mode = s2l "mut" then evs.filter (·.mutating) else evs
-        some ({ st with w := { st.w with trace := [] } }, evs.map showEvent)
+        let shown := evs.map showEvent
+        -- "sorted": every event, as a multiset (Rollback's first loop iterates a Go map)
+        let shown := if mode = s2l "sorted" then sortStrings shown else shown
+        some ({ st with w := { st.w with trace := [] } }, shown)
     | "bfs.faults", rest =>
         -- triples: side method occ nargs args…
         let rec go (fs : List (List Char)) (fuel : Nat) (acc : List Fault) : Option (List Fault) :=
